@@ -84,3 +84,13 @@ package hash
 //@   opaque AddWithReplicas
 //@   requires h != nil
 //@   ensures calls(h.AddWithReplicas, node, h.replicas) == 1
+
+// Construction: at least 100 virtual nodes per unit of weight, the default hash when none is given, and an empty
+// ring that satisfies the ring invariant.
+//@ func NewCustomConsistentHash
+//@   prop C13
+//@   ensures [at-least-min-replicas] result != nil && result.replicas == ite(replicas < 100, 100, replicas)
+//@   ensures [hash-function] fn != nil ==> result.hashFunc == fn
+//@   ensures [default-hash] fn == nil ==> result.hashFunc == Hash
+//@   ensures [empty-ring-ok] ringOK(result)
+//@   ensures [no-positions] len(result.keys) == 0 && result.nodes != nil && len(result.ring) == 0
